@@ -628,6 +628,29 @@ def extent(prog, ex, chk, S3, name, ge):
                                   facts={'written': wn.show(), 'allocated': an.show()})
 
 
+def _single_assignment_locals(g):
+    """id -> initialiser of the locals of g that are initialised once and never assigned again (const objects,
+    references, and variables no statement of g writes)."""
+    out = {}
+    written = set()
+    for n in walk(g.body):
+        k = n.get('kind')
+        tgt = None
+        if k in ('BinaryOperator', 'CompoundAssignOperator') and (n.get('opcode') or '').endswith('=') and \
+                n.get('opcode') not in ('==', '!=', '<=', '>='):
+            tgt = strip(children(n)[0], explicit=True)
+        elif k == 'UnaryOperator' and n.get('opcode') in ('++', '--'):
+            tgt = strip(children(n)[0], explicit=True)
+        if tgt is not None and tgt.get('kind') == 'DeclRefExpr':
+            written.add((tgt.get('referencedDecl') or {}).get('id'))
+    for n in walk(g.body):
+        if n.get('kind') == 'VarDecl' and n.get('id') not in written:
+            init = [x for x in children(n) if not x['kind'].endswith('Attr') and not x['kind'].endswith('Comment')]
+            if init:
+                out[n['id']] = init[-1]
+    return out
+
+
 def _value_rejections(prog, cg, f, encoder_side=False):
     """(kind, node) for throws of f and the repository functions it calls whose condition tests decoded
     VALUES rather than the bytes available: 'count' = an integer compared with a literal other than
@@ -645,6 +668,17 @@ def _value_rejections(prog, cg, f, encoder_side=False):
                 if t.body is not None and prog.in_repo(t.file) and ('performance_data_format' in (t.file or '') or
                                                                        '/v2/' in (t.file or '')) and t.cls is None:
                     work.append(t)
+        decls = _single_assignment_locals(g)
+
+        def xwalk(node, depth=0):
+            # the expression with named sub-expressions (const / reference locals, flags) written out
+            for z in walk(node):
+                yield z
+                if z.get('kind') == 'DeclRefExpr' and depth < 3:
+                    d = decls.get((z.get('referencedDecl') or {}).get('id'))
+                    if d is not None:
+                        for w in xwalk(d, depth + 1):
+                            yield w
         for x in walk(g.body):
             if x.get('kind') != 'IfStmt' or len(children(x)) < 2:
                 continue
@@ -653,11 +687,15 @@ def _value_rejections(prog, cg, f, encoder_side=False):
             cond = children(x)[0]
             ptrish = any(('*' in (y.get('type') or '') and y.get('kind') in ('DeclRefExpr', 'ImplicitCastExpr'))
                          for y in walk(cond))
-            for y in walk(cond):
+            seen_cmp = set()
+            for y in xwalk(cond):
                 if y.get('kind') != 'BinaryOperator' or y.get('opcode') not in ('<', '<=', '>', '>=', '==', '!='):
                     continue
+                if id(y) in seen_cmp:
+                    continue
+                seen_cmp.add(id(y))
                 a, b = children(y)
-                subs = [z for z in walk(y) if z.get('kind') in ('CXXOperatorCallExpr', 'ArraySubscriptExpr')]
+                subs = [z for z in xwalk(y) if z.get('kind') in ('CXXOperatorCallExpr', 'ArraySubscriptExpr')]
                 idx = []
                 for z in subs:
                     c = children(z)
